@@ -227,14 +227,38 @@ def check_select(ctx: Context, rep, sel) -> None:
                construct=short(s),
                message="truncation keeps the first `shards` entries: slice "
                "[:shards]")
-    # 3. per metadata limit: a comparison counts[k] <= limit guarding append
+    # 3. per metadata limit: a comparison <count of this group> <= limit
+    # guarding the append, the counter being incremented for every shard
+    from sa.model import parent
+    import copy
+
+    def loop_defs(loop: ast.For) -> dict[str, ast.AST]:
+        """unconditional single assignments in the loop body"""
+        out: dict[str, ast.AST] = {}
+        seen: dict[str, int] = {}
+        for st in loop.body:
+            if isinstance(st, (ast.Assign, ast.AnnAssign)) and st.value is not None:
+                t = st.targets[0] if isinstance(st, ast.Assign) else st.target
+                if isinstance(t, ast.Name):
+                    seen[t.id] = seen.get(t.id, 0) + 1
+                    out[t.id] = st.value
+        return {k: v for k, v in out.items() if seen[k] == 1}
+
+    def expand_in(e: ast.AST, defs: dict[str, ast.AST], depth: int = 0) -> ast.AST:
+        class T(ast.NodeTransformer):
+            def visit_Name(self, n):
+                if isinstance(n.ctx, ast.Load) and n.id in defs and depth < 5:
+                    return expand_in(copy.deepcopy(defs[n.id]), defs, depth + 1)
+                return n
+        return T().visit(copy.deepcopy(e))
+
     cmps = [
         n for n in sel.body_nodes() if isinstance(n, ast.Compare) and
         "custom_metadata_type_limit" in names_in(n) and
         not isinstance(n.ops[0], (ast.Is, ast.IsNot))
     ]
     rep.ob("C12.select", bool(cmps), loc=sel.loc(), where=sel.qualname,
-           construct="counts[k] <= custom_metadata_type_limit",
+           construct="<group count> <= custom_metadata_type_limit",
            message="per-metadata limit comparison must exist")
     for c in cmps:
         left, op, right = c.left, c.ops[0], c.comparators[0]
@@ -245,64 +269,88 @@ def check_select(ctx: Context, rep, sel) -> None:
         rep.ob("C12.select", ok, loc=sel.loc(c), where=sel.qualname,
                construct=short(c),
                message="a shard is kept while its metadata group count "
-               "(incremented before the test) is <= the limit")
-        # the counter is incremented before the test in the same loop body
+               "(this shard included) is <= the limit")
         p = c
-        from sa.model import parent
         while p is not None and not isinstance(p, ast.If):
             p = parent(p)
         loop = p
         while loop is not None and not isinstance(loop, (ast.For, ast.While)):
             loop = parent(loop)
         ok2 = False
-        if isinstance(p, ast.If) and isinstance(loop, ast.For):
-            idx = loop.body.index(p) if p in loop.body else -1
-            count_name = next(iter(names_in(left if lim_right else right)),
-                              None)
-            for st in loop.body[:max(idx, 0)]:
-                if isinstance(st, (ast.Assign, ast.AugAssign)):
-                    tgt = st.targets[0] if isinstance(st,
-                                                      ast.Assign) else st.target
-                    if count_name and count_name in names_in(tgt):
-                        val = st.value
-                        if isinstance(st, ast.AugAssign):
-                            ok2 = isinstance(st.op, ast.Add) and isinstance(
-                                val, ast.Constant) and val.value == 1
-                        else:
-                            ok2 = any(
-                                isinstance(b, ast.BinOp) and
-                                isinstance(b.op, ast.Add) and any(
-                                    isinstance(x, ast.Constant) and x.value == 1
-                                    for x in (b.left, b.right))
-                                for b in ast.walk(val))
-            # the grouping key is an injective function of the metadata
-            INJECTIVE = {"tuple", "sorted", "frozenset", "items", "str",
-                         "repr", "dumps", "list"}
-            lossy = sorted({
-                (x.func.id if isinstance(x.func, ast.Name) else x.func.attr)
-                for st in loop.body[:max(idx, 0)] for x in ast.walk(st)
-                if isinstance(x, ast.Call) and isinstance(
-                    x.func, (ast.Name, ast.Attribute)) and any(
-                        isinstance(y, ast.Attribute) and
-                        y.attr == "custom_metadata" for y in ast.walk(x))
-            } - INJECTIVE)
-            rep.ob("C12.select", not lossy, loc=sel.loc(c), where=sel.qualname,
-                   construct="group key built with " + (
-                       ", ".join(lossy) if lossy else
-                       "tuple/sorted/items only"),
-                   message="the per-metadata counter key must distinguish "
-                   "distinct metadata values (hash/id/len are not injective)")
-            # the grouping key derives from the shard's custom_metadata
-            key_ok = any(
-                isinstance(x, ast.Attribute) and x.attr == "custom_metadata"
-                for st in loop.body[:max(idx, 0)]
-                for x in ast.walk(st))
-            ok2 = ok2 and key_ok and isinstance(loop.iter, ast.Name)
+        lossy: list[str] = []
+        detail = "limit test is not inside a for loop over the shard list"
+        if isinstance(p, ast.If) and isinstance(loop, ast.For) and p in loop.body:
+            defs = loop_defs(loop)
+            cnt = expand_in(left if lim_right else right, defs)
+            ct = ast.unparse(cnt)
+            lv = dotted(loop.target)
+            # counter dictionary and key
+            subs = [x for x in ast.walk(cnt) if isinstance(x, ast.Subscript)]
+            gets = [x for x in ast.walk(cnt) if isinstance(x, ast.Call) and
+                    isinstance(x.func, ast.Attribute) and x.func.attr == "get"
+                    and len(x.args) == 2 and isinstance(
+                        x.args[1], ast.Constant) and x.args[1].value == 0]
+            plus1 = any(isinstance(b, ast.BinOp) and isinstance(b.op, ast.Add)
+                        and any(isinstance(z, ast.Constant) and z.value == 1
+                                for z in (b.left, b.right))
+                        for b in ast.walk(cnt))
+            cdict = key = None
+            if gets and plus1:
+                cdict, key = dotted(gets[0].func.value), gets[0].args[0]
+                form = "get+1"
+            elif subs:
+                cdict, key = dotted(subs[0].value), subs[0].slice
+                form = "subscript"
+            if cdict is not None:
+                # unconditional store / increment of counts[key] in the body
+                stores = []
+                for st in loop.body:
+                    if isinstance(st, ast.Assign) and isinstance(
+                            st.targets[0], ast.Subscript) and dotted(
+                                st.targets[0].value) == cdict:
+                        v = ast.unparse(expand_in(st.value, defs))
+                        stores.append(("=", v, loop.body.index(st)))
+                    if isinstance(st, ast.AugAssign) and isinstance(
+                            st.target, ast.Subscript) and dotted(
+                                st.target.value) == cdict and isinstance(
+                                    st.op, ast.Add) and isinstance(
+                                        st.value, ast.Constant) and \
+                            st.value.value == 1:
+                        stores.append(("+=", "1", loop.body.index(st)))
+                idx = loop.body.index(p)
+                if form == "get+1":
+                    ok_store = any(k == "=" and v == ct for k, v, _i in stores)
+                else:
+                    ok_store = any(i < idx and (k == "+=" or (
+                        ".get(" in v and "+ 1" in v)) for k, v, i in stores)
+                key_e = expand_in(key, defs)
+                kt = ast.unparse(key_e)
+                key_ok = f"{lv}.custom_metadata" in kt
+                INJECTIVE = {"tuple", "sorted", "frozenset", "items", "str",
+                             "repr", "dumps", "list"}
+                lossy = sorted({
+                    (x.func.id if isinstance(x.func, ast.Name) else x.func.attr)
+                    for x in ast.walk(key_e) if isinstance(x, ast.Call) and
+                    isinstance(x.func, (ast.Name, ast.Attribute))} - INJECTIVE)
+                appended = any(
+                    isinstance(x, ast.Call) and isinstance(
+                        x.func, ast.Attribute) and x.func.attr == "append" and
+                    x.args and dotted(x.args[0]) == lv
+                    for s2 in p.body for x in ast.walk(s2))
+                ok2 = ok_store and key_ok and isinstance(loop.iter, ast.Name) \
+                    and appended and len(stores) == 1 and not p.orelse
+                detail = (f"count={ct}, stored unconditionally={ok_store}, key="
+                          f"{kt} from this shard's metadata={key_ok}, kept "
+                          f"shard appended={appended}")
+        rep.ob("C12.select", not lossy, loc=sel.loc(c), where=sel.qualname,
+               construct="group key built with " + (
+                   ", ".join(lossy) if lossy else "tuple/sorted/items only"),
+               message="the per-metadata counter key must distinguish "
+               "distinct metadata values (hash/id/len are not injective)")
         rep.ob("C12.select", ok2, loc=sel.loc(c), where=sel.qualname,
-               construct="counts[key(custom_metadata)] += 1 before the test",
-               message="the group counter is keyed by the shard's "
-               "custom_metadata and incremented by one before the comparison, "
-               "iterating the whole list")
+               construct="counts[key(custom_metadata)] incremented by one for "
+               "every shard, compared after the increment",
+               message="per-metadata counting over the whole list: " + detail)
     # 4. guards: each stage is under a test of its own option only
     for label, opt, nodes in (("filter", "shard_filter", [n.ast for n in filt]),
                               ("truncate", "shards", slices),
